@@ -337,7 +337,7 @@ def job(args):
 
 
 def run(tier, seed):
-    n = 100 if tier == "quick" else 1200
+    n = 100 if tier == "quick" else 500
     res = Result()
     for r in core.pmap(job, [(seed, i, tier) for i in range(n)]):
         res.merge(r)
